@@ -312,6 +312,7 @@ func main() {
 	child := flag.Bool("child", false, "internal: run as worker, print one JSON line per run")
 	mode := flag.String("mode", "all", "mixed|converge|asynccrash|single|zero|snap|figure8|nodefuzz")
 	corpus := flag.String("corpus", "", "directory of replay files to run first (minimised past findings)")
+	directed := flag.String("directed", "", "internal: JSON options to vary (directed search)")
 	flag.Parse()
 
 	if *replay != "" {
@@ -329,6 +330,14 @@ func main() {
 		w := bufio.NewWriter(os.Stdout)
 		for i := 0; i < *runs; i++ {
 			o := genOpts(rng, *tier, *mode)
+			if *directed != "" {
+				var base sim.Opts
+				if json.Unmarshal([]byte(*directed), &base) == nil {
+					base.Seed = rng.Int63()
+					base.Steps = base.Steps*3/2 + 100
+					o = base
+				}
+			}
 			rr := oneRun(o, !*noModel)
 			b, _ := json.Marshal(rr)
 			w.Write(b)
@@ -404,6 +413,59 @@ func main() {
 			res.Stats["corpus_runs"]++
 		}
 		all = append(cr, all...)
+	}
+	// directed search (DESIGN.md 5.2): the correspondence broke but no monitor fired -> look for a concrete
+	// failing history around the disagreeing runs (same options, fresh seeds; monitors only)
+	anyMismatch, anyConcrete := false, false
+	for _, rr := range all {
+		if rr.Mismatch != nil || rr.SpecFail != nil {
+			anyMismatch = true
+		}
+		if len(rr.Violations) > 0 {
+			anyConcrete = true
+		}
+	}
+	if anyMismatch && !anyConcrete && !*noModel {
+		var bases []sim.Opts
+		for _, rr := range all {
+			if (rr.Mismatch != nil || rr.SpecFail != nil) && rr.Opts.Fuzz == 0 && len(bases) < 4 {
+				bases = append(bases, rr.Opts)
+			}
+		}
+		drng := rand.New(rand.NewSource(*seed ^ 0xd1ec7ed))
+		var dmu sync.Mutex
+		var dwg sync.WaitGroup
+		found := false
+		for w := 0; w < *workers; w++ {
+			dwg.Add(1)
+			wseed := drng.Int63()
+			go func(wseed int64) {
+				defer dwg.Done()
+				// each worker is a child process (the election-timeout reader is process-global)
+				for _, b := range bases {
+					bb, _ := json.Marshal(b)
+					cmd := exec.Command(self, "-child", "-directed", string(bb), "-runs", "40", "-seed", fmt.Sprint(wseed), "-nomodel")
+					out, err := cmd.Output()
+					if err != nil {
+						continue
+					}
+					for _, line := range strings.Split(string(out), "\n") {
+						var rr runResult
+						if line != "" && json.Unmarshal([]byte(line), &rr) == nil && len(rr.Violations) > 0 {
+							dmu.Lock()
+							all = append(all, rr)
+							found = true
+							dmu.Unlock()
+						}
+					}
+				}
+			}(wseed)
+		}
+		dwg.Wait()
+		res.Stats["directed_search_runs"] = len(bases) * 40 * *workers
+		if found {
+			res.Stats["directed_search_found"] = 1
+		}
 	}
 	summarise(res, all, per**workers+res.Stats["corpus_runs"])
 	res.Emit()
